@@ -2,6 +2,8 @@ from functools import partial
 
 import jax
 
+from lcm import _verif
+
 
 def random_choice(key, probs, labels):
     """Draw multiple random choices.
@@ -17,6 +19,11 @@ def random_choice(key, probs, labels):
 
     """
     keys = jax.random.split(key, probs.shape[0])
+    if _verif.ENABLED:
+        _draws = _vmapped_random_choice(keys, probs, labels)
+        _verif.emit(
+            "draw", key=key, agent_keys=keys, probs=probs, labels=labels, result=_draws
+        )
     return _vmapped_random_choice(keys, probs, labels)
 
 
